@@ -104,7 +104,7 @@ def gen_case(rng, tier):
     eps = rng.choice(["1/10", "1/100", "1/100000", "1/100000000"]) if rng.random() < .5 else "1/100000"
     mi = rng.choice([100000] * 8 + [1, 2, 5])
     return {"mdp": m, "max_residual": eps, "max_iterations": mi,
-            "undefined_value": rng.choice(["0", "0", "-7"]), "explicit_lists": rng.random() < .3}
+            "undefined_value": rng.choice(["0", "0", "-7", "-inf"]), "explicit_lists": rng.random() < .3}
 
 
 def mdp_terms(case, res):
@@ -128,7 +128,7 @@ def tol_term(case, planner, out):
         epsb, qtol = 2 * band, 2 * band
     rt, at = F(1, 10**5), F(1, 10**8)
     t = [epsb, qtol, rt * F(1001, 1000), at * F(1001, 1000) + tiny, rt * F(1, 2), at * F(1, 2),
-         F(1, 10**12), F(1, 10**9) * scale, F(case["undefined_value"])]
+         F(1, 10**12), F(1, 10**9) * scale, F(0) if case["undefined_value"] == "-inf" else F(case["undefined_value"])]
     return "(mkTols %s)" % " ".join(q(x) for x in t), epsb
 
 
@@ -307,6 +307,28 @@ def run(ctx):
                 ctx.violation("C01:%s:raises:%s" % (planner, out["error"].split(":")[0]),
                               {"case": case, "planner": planner, "error": out["error"]}, found=True)
                 continue
+            if case["undefined_value"] == "-inf":
+                # infinite placeholder: the -inf pattern must be exactly the unreachable-goal states, and the
+                # initial value -inf exactly when one of them has positive initial probability; the finite
+                # rest goes to the Coq checker with the placeholder states read as 0 (undef := 0)
+                sl, al = res["state_list"], res["action_list"]
+                P_, R_, av_, absf_, ini_ = gen_mdp.arrays(case["mdp"], sl, al)
+                _, unable_ = model_masks(P_, R_, av_, absf_, F(case["mdp"]["gamma"]))
+                pat = [v == "-inf" for v in out["V"]]
+                exp_iv_inf = any(u and ini_[k] > 0 for k, u in enumerate(unable_))
+                iv_ = out["initial_value"]
+                if pat != unable_ or (iv_ == "-inf") != exp_iv_inf or (isinstance(iv_, str) and iv_ != "-inf"):
+                    ctx.violation("C01:%s:infinite-placeholder-pattern" % planner,
+                                  {"case": case, "planner": planner, "impl": out, "expected_placeholder_states": unable_,
+                                   "failing_clause": "placeholder at exactly the states that cannot reach an absorbing state; initial value = initial-distribution expectation of the reported values (over the initial support)"},
+                                  found=True)
+                    continue
+                out = dict(out)
+                out["V"] = [[0, 1] if v == "-inf" else v for v in out["V"]]
+                if exp_iv_inf:
+                    # expectation over the finite part is checked; the infinite part was checked above
+                    out["initial_value"] = vlib.fjson(float(sum(ini_[k] * vlib.frac(out["V"][k]) for k in range(len(sl)))))
+                res["planners"][planner] = out
             tl, epsb = tol_term(case, planner, out)
             Qv = coqlist(coqlist(qopt(x) for x in row) for row in out["Q"])
             badV = any(isinstance(v, str) for v in out["V"])
